@@ -407,6 +407,44 @@ fn client_and_request(cfg: &Cfg, sh: &real::ClientShared, taddr: &octo_squirrel:
     }
 }
 
+/// A handshake presented again after N OTHER valid handshakes have been accepted in between (all inside the window in which
+/// its timestamp is acceptable: the clock is pinned). Whatever the server remembers accepted salts in, it must not have
+/// forgotten this one - for traffic volumes far below the documented limit of the cache (102400 salts; that limit itself
+/// is the known finding of the thorough tier). Deployments with and without a user table: the server builds its replay
+/// state at start-up from its configuration.
+fn interposed_handshakes(cx: &mut Cx, rng: &mut Rng, counts: &[usize]) {
+    for (k, m) in [ss::Method::B3Aes128Gcm, ss::Method::B3Aes256Gcm, ss::Method::B3ChaCha20Poly1305].into_iter().enumerate() {
+        for users in [0usize, 2] {
+            if users > 0 && !m.supports_eih() {
+                continue;
+            }
+            let n = counts[(k + users) % counts.len()];
+            let cfg = Cfg::random(rng, Proto::Ss(m), users);
+            let target = gen::random_addr(rng);
+            pin_clock(NOW);
+            let Ok(shared) = real::server_shared(&cfg) else { continue };
+            let mut c = RefClient::new(&cfg, &target, rng, NOW, ClientOpts::default());
+            let w = c.write(b"hello", rng);
+            let first = server_accepts(&cfg, &shared, &w);
+            let mut others = 0usize;
+            for _ in 0..n {
+                let mut o = RefClient::new(&cfg, &target, rng, NOW, ClientOpts::default());
+                let ow = o.write(b"x", rng);
+                if server_accepts(&cfg, &shared, &ow) {
+                    others += 1;
+                }
+            }
+            let again = server_accepts(&cfg, &shared, &w);
+            cx.rep.mon("handshakes_interposed_before_a_replay", others as u64);
+            if !first || others != n {
+                cx.rep.inconclusive("interposed handshakes: the original or one of the handshakes in between was not accepted");
+                continue;
+            }
+            cx.decide("ss2022-tcp-replay-after-other-handshakes", &format!("{}|users={}", m.name(), users), json!({"handshakes_in_between": n, "documented_capacity_of_the_cache": 102400, "note": "the timestamp is still acceptable (clock pinned)"}), false, again);
+        }
+    }
+}
+
 /// Real-time cases (thorough): the salt cache must remember a salt for as long as its timestamp stays acceptable.
 fn realtime_cases(cx: &mut Cx, rng: &mut Rng) {
     let m = ss::Method::B3Aes128Gcm;
@@ -467,6 +505,9 @@ pub fn run(a: &Args) -> Report {
         udp_grid(&mut cx, &mut rng);
         vmess_grid(&mut cx, &mut rng);
         tcp_server_concurrent(&mut cx, &mut rng, a.n(200, 3000));
+        if a.scale >= 1.0 {
+            interposed_handshakes(&mut cx, &mut rng, if a.thorough { &[1100, 2100, 5000, 20000, 60000] } else { &[1100, 2100, 5000, 20000] });
+        }
         if a.thorough && a.scale >= 1.0 {
             realtime_cases(&mut cx, &mut rng);
         }
